@@ -91,7 +91,7 @@ func cfgC12(tier string) e1Cfg {
 func cfgC16(tier string) e1Cfg {
 	t := baseTxn()
 	t.MergePct = 40
-	return e1Cfg{Prop: "C16", Kinds: []Kind{KString, KString, KEnum, KInt, KBool, KStringMin}, KeyedPct: 10, LayoutPct: 40, Steps: steps(tier, 130, 420), Pool: "small",
+	return e1Cfg{Prop: "C16", Kinds: []Kind{KString, KString, KEnum, KInt, KBool, KStringMin, KStringCat}, KeyedPct: 10, LayoutPct: 40, Steps: steps(tier, 130, 420), Pool: "small",
 		NIdx: 2, NSorted: 3, PIdxChg: 5, PFilter: 25, PRestore: 1, Txn: t, DumpEvery: 1, Oracles: oracleSet("sorted")}
 }
 
@@ -142,17 +142,22 @@ func init() {
 		if p.id == "C12" {
 			mp.add(e2PhaseFor("C12", e2Oracles{keys: true}))
 			mp.add(racePlan(4, 40), func(w *W, idx int) {
-				withWatchdog(w, idx, fmt.Sprintf("E3:key-map:round%d", idx), 10*time.Minute, func() { keyMapRound(w, idx) })
+				withWatchdog(w, idx, fmt.Sprintf("E3:key-map:round%d", idx), 5*time.Minute, func() { keyMapRound(w, idx) })
+			})
+		}
+		if p.id == "C19" {
+			mp.add(racePlan(4, 40), func(w *W, idx int) {
+				withWatchdog(w, idx, fmt.Sprintf("E3:trigger-beside-drops:round%d", idx), 5*time.Minute, func() { triggerRound(w, idx) })
 			})
 		}
 		if p.id == "C03" {
 			mp.add(racePlan(4, 40), func(w *W, idx int) {
-				withWatchdog(w, idx, fmt.Sprintf("E3:index-build-beside-writers:round%d", idx), 10*time.Minute, func() { indexBuildRound(w, idx) })
+				withWatchdog(w, idx, fmt.Sprintf("E3:index-build-beside-writers:round%d", idx), 5*time.Minute, func() { indexBuildRound(w, idx) })
 			})
 		}
 		if p.id == "C11" {
 			mp.add(racePlan(6, 60), func(w *W, idx int) {
-				withWatchdog(w, idx, fmt.Sprintf("E3:insert-ownership:round%d", idx), 10*time.Minute, func() { insertRound(w, idx) })
+				withWatchdog(w, idx, fmt.Sprintf("E3:insert-ownership:round%d", idx), 5*time.Minute, func() { insertRound(w, idx) })
 			})
 		}
 		register(&Property{
